@@ -547,6 +547,8 @@ def apply_json_struct_fault(value, f):
             leaves = json_value_leaves(value)
             if not leaves:
                 return value, False
+            if f.get("junk") == "json":
+                return _set(value, leaves[f["idx"] % len(leaves)], copy.deepcopy(JUNK_JSON[f["val"] % len(JUNK_JSON)])), True
             return _set(value, leaves[f["idx"] % len(leaves)], JUNK_TEXT[f["val"] % len(JUNK_TEXT)]), True
         if k == "value_text":
             # a string leaf replaced by one of the lexical junk values (typed value corruption, JSON side)
